@@ -949,7 +949,10 @@ func (s *Sem) is(v ssa.Value, role string) bool {
 				if role == RoleAuthLevel && f == "AuthType" && s.Is(base, RoleAuthInfo) {
 					return true
 				}
-				return s.fieldOfResultHasRole(base, f, role)
+				if s.fieldOfResultHasRole(base, f, role) {
+					return true
+				}
+				return s.newTypeFieldHasRole(base.Type(), f, role)
 			}
 			// load of a local variable cell: all stores must have the role
 			if a, ok := x.X.(*ssa.Alloc); ok {
@@ -964,7 +967,10 @@ func (s *Sem) is(v ssa.Value, role string) bool {
 			if role == RoleAuthLevel && f == "AuthType" && s.Is(base, RoleAuthInfo) {
 				return true
 			}
-			return s.fieldOfResultHasRole(base, f, role)
+			if s.fieldOfResultHasRole(base, f, role) {
+				return true
+			}
+			return s.newTypeFieldHasRole(base.Type(), f, role)
 		}
 	case *ssa.Parameter:
 		return s.paramHasRole(x, role)
@@ -1182,4 +1188,37 @@ func KMD_IsAdminUser() string { return fnIsAdminUser }
 // HoldsOnPathsWithinInstr is HoldsOnPathsWithin for predicates over the site alone (e.g. "a dominating call exists").
 func (s *Sem) HoldsOnPathsWithinInstr(site ssa.Instruction, pred func(at ssa.Instruction) bool, roots, within map[*ssa.Function]bool, depth int) (bool, string) {
 	return s.holdsOnAllPaths(site, func(st DNF, at ssa.Instruction) bool { return pred(at) }, roots, within, depth+s.C.DepthBonus, map[*ssa.Function]bool{})
+}
+
+// newTypeFieldHasRole: the field of a struct type that is new to the tree (a request-scoped record handed from one
+// stage of a split-up handler to the next) carries the role when every store to that field anywhere in the module
+// stores a value of the role. Field-based and object-insensitive: sound for "every value this field can hold".
+func (s *Sem) newTypeFieldHasRole(t types.Type, field, role string) bool {
+	tn := NamedTypeOf(t)
+	if tn == "" || !strings.HasPrefix(tn, ModPath) || pinnedTypes[tn] || len(pinnedTypes) == 0 {
+		return false
+	}
+	n := 0
+	for _, fn := range s.C.P.AllFuncs {
+		if !s.C.inModule(fn) {
+			continue
+		}
+		for _, b := range fn.Blocks {
+			for _, in := range b.Instrs {
+				st, ok := in.(*ssa.Store)
+				if !ok {
+					continue
+				}
+				fa, ok := st.Addr.(*ssa.FieldAddr)
+				if !ok || NamedTypeOf(fa.X.Type()) != tn || fieldName(fa.X.Type(), fa.Field) != field {
+					continue
+				}
+				n++
+				if !s.Is(st.Val, role) {
+					return false
+				}
+			}
+		}
+	}
+	return n > 0
 }
